@@ -212,6 +212,82 @@ def inline_return_temps(tree: ast.AST) -> int:
     return count
 
 
+def inline_pure_temps(tree: ast.AST) -> int:
+    """Normalisation: `t = a.b.c` (a pure attribute chain) immediately followed by a statement that uses `t` exactly
+    once, with no other occurrence of `t` in the function, is folded back into that statement ("extract variable"
+    undone).  No call is moved, so the order of effects is unchanged."""
+    import copy
+
+    def pure(e: ast.AST) -> bool:
+        depth = 0
+        while isinstance(e, ast.Attribute):
+            e = e.value
+            depth += 1
+        return depth >= 1 and isinstance(e, ast.Name)
+
+    count = 0
+    for fn in ast.walk(tree):
+        if not isinstance(fn, (ast.FunctionDef, ast.AsyncFunctionDef)):
+            continue
+        occurrences: dict[str, int] = {}
+        for n in ast.walk(fn):
+            if isinstance(n, ast.Name):
+                occurrences[n.id] = occurrences.get(n.id, 0) + 1
+        for holder in ast.walk(fn):
+            for field in ("body", "orelse", "finalbody"):
+                blk = getattr(holder, field, None)
+                if not (isinstance(blk, list) and blk and isinstance(blk[0], ast.stmt)):
+                    continue
+                i = 0
+                while i + 1 < len(blk):
+                    a, nxt = blk[i], blk[i + 1]
+                    if (isinstance(a, ast.Assign) and len(a.targets) == 1 and isinstance(a.targets[0], ast.Name) and pure(a.value)
+                            and occurrences.get(a.targets[0].id) == 2 and not isinstance(nxt, (ast.FunctionDef, ast.AsyncFunctionDef, ast.ClassDef))):
+                        name = a.targets[0].id
+                        root = a.value
+                        while isinstance(root, ast.Attribute):
+                            root = root.value
+                        # the use must be in the header / body of the next statement's own expressions, not in a nested scope,
+                        # and the next statement must not rebind the chain's root before the use (keep it simple: not at all)
+                        uses = []
+                        stack = [nxt]
+                        nested = False
+                        while stack:
+                            x = stack.pop()
+                            if isinstance(x, _SCOPE_NODES) and x is not nxt:
+                                if any(isinstance(y, ast.Name) and y.id == name for y in ast.walk(x)):
+                                    nested = True
+                                continue
+                            if isinstance(x, ast.Name) and x.id == name and isinstance(x.ctx, ast.Load):
+                                uses.append(x)
+                            stack.extend(ast.iter_child_nodes(x))
+                        rebinds = any(isinstance(y, ast.Name) and y.id == root.id and isinstance(y.ctx, ast.Store) for y in ast.walk(nxt))  # type: ignore[union-attr]
+                        simple = isinstance(nxt, (ast.Expr, ast.Assign, ast.AnnAssign, ast.AugAssign, ast.Return, ast.Raise, ast.Assert, ast.If, ast.While, ast.For, ast.With))
+                        in_header = True
+                        if isinstance(nxt, (ast.If, ast.While)):
+                            in_header = all(any(u is y for y in ast.walk(nxt.test)) for u in uses)
+                        elif isinstance(nxt, ast.For):
+                            in_header = all(any(u is y for y in ast.walk(nxt.iter)) for u in uses)
+                        elif isinstance(nxt, ast.With):
+                            in_header = all(any(u is y for i_ in nxt.items for y in ast.walk(i_.context_expr)) for u in uses)
+                        if len(uses) == 1 and not nested and not rebinds and simple and in_header:
+                            class _S(ast.NodeTransformer):
+                                def visit_Name(self, node: ast.Name) -> ast.AST:
+                                    if node is uses[0]:
+                                        new = copy.deepcopy(a.value)
+                                        for y in ast.walk(new):
+                                            ast.copy_location(y, node)
+                                        return new
+                                    return node
+
+                            blk[i + 1] = _S().visit(nxt)
+                            del blk[i]
+                            count += 1
+                            continue
+                    i += 1
+    return count
+
+
 def set_parents(tree: ast.AST) -> None:
     for node in ast.walk(tree):
         for child in ast.iter_child_nodes(node):
@@ -269,6 +345,7 @@ class Project:
                 continue
             inline_method_aliases(tree)
             inline_return_temps(tree)
+            inline_pure_temps(tree)
             set_parents(tree)
             modname = PKG + "." + rel[:-3].replace(os.sep, ".")
             is_pkg = False
